@@ -21,4 +21,10 @@ BCellNeeded(A, n, SG, M, c) ==
 BIrredundant(A, n, SG) == \A M \in SG : \A c \in M.R : BCellNeeded(A, n, SG, M, c)
 \* the maximal shading for which the occurrence t (1-based) of its own pattern in q stays an occurrence
 BMaximalShading(q, t) == MCells(Len(t)) \ {MCellOf(q, t, j) : j \in (DOMAIN q) \ MRangeOf(t)}
+\* a permutation "offends" a sanity check: a good one that contains a learned pattern, a bad one that avoids them all
+BOffends(kind, q, SG) == IF kind = "good" THEN BContainsAny(q, SG) ELSE ~BContainsAny(q, SG)
+BOffenders(kind, S, SG) == {q \in S : BOffends(kind, q, SG)}
+\* what a sanity check may hand back next to its verdict: nothing when it passes, otherwise a non-empty list of
+\* members of the checked set, each of which really offends
+BWitnessesOK(kind, S, SG, res, wit) == IF res THEN wit = {} ELSE wit # {} /\ wit \subseteq BOffenders(kind, S, SG)
 =============================================================================
